@@ -211,8 +211,8 @@ class ExplosiveArc(ExactSolver):
         if self.D_CJ <= 0:
             raise ValueError('Detonation velocity must be > 0')
 
-        if self.alpha < 0:
-            raise ValueError('Alpha must be >= 0')
+        if self.alpha <= 0:
+            raise ValueError('Alpha must be >= 0 and cannot be zero')
 
         if self.t_f <= 0:
             raise ValueError('Final time must be positive')
